@@ -874,9 +874,25 @@ impl<'a> CLProofBuilder<'a> {
         let attributes = present.get_revealed_attributes();
         let predicates = &present.requested_predicates;
 
-        let (attrs_for_credential, attrs_nonrevoked_interval) = self
+        let (attrs_for_credential, mut attrs_nonrevoked_interval) = self
             .presentation_request
             .get_requested_attributes(&attributes)?;
+        // the non-revocation interval of a referent applies whether or not its value is revealed
+        let unrevealed: HashSet<String> = present
+            .requested_attributes
+            .iter()
+            .filter(|(_, revealed)| !revealed)
+            .map(|(referent, _)| referent.clone())
+            .collect();
+        let (_, unrevealed_nonrevoked_interval) = self
+            .presentation_request
+            .get_requested_attributes(&unrevealed)?;
+        if let Some(unrevealed_interval) = unrevealed_nonrevoked_interval {
+            match attrs_nonrevoked_interval.as_mut() {
+                Some(interval) => interval.compare_and_set(&unrevealed_interval),
+                None => attrs_nonrevoked_interval = Some(unrevealed_interval),
+            }
+        }
         let (predicates_for_credential, pred_nonrevoked_interval) = self
             .presentation_request
             .get_requested_predicates(predicates)?;
